@@ -1,114 +1,1024 @@
+// c20_race: correspondence cases for property C20 (independent runtimes).
+// Built with `go build -race`.
+//
+// Parent (normal flags): generates program sets from the seed and hands them,
+// in batches, to child processes (this binary re-executed with -child) that
+// run under GORACE="halt_on_error=1 exitcode=66".  For every job the child
+// first runs every runtime's programs ALONE (sequential baseline), then runs
+// all runtimes of the job CONCURRENTLY, one goroutine per runtime, and prints
+// both.  A race report (or any abnormal end of the child) becomes the
+// observation of the job that was running, with the head of the report as
+// replay text; the remaining jobs continue in a new child.
+//
+// mode = origin*3 + sharing
+//
+//	origin  0 fresh runtimes (otto.New in the goroutine, then the setup script)
+//	        1 copies of one template (Copy in the main goroutine)
+//	        2 copies of one template made concurrently (Copy in the goroutines)
+//	sharing 0 every runtime runs source text
+//	        1 runtimes run the same compiled *otto.Script objects
+//	        2 runtimes run the same parsed *ast.Program objects
+//
+// The sequential baseline always uses private source text (fresh compilation)
+// on a private template, so sharing a Script/Program or a template is
+// compared with not sharing it.
 package main
 
 import (
+	"bufio"
+	"bytes"
+	"encoding/json"
 	"fmt"
+	"hash/fnv"
+	"math/rand"
+	"os"
+	"os/exec"
+	"path/filepath"
+	goruntime "runtime"
+	"sort"
+	"strings"
 	"sync"
+	"time"
 
 	"github.com/robertkrimen/otto"
+	"github.com/robertkrimen/otto/ast"
 	"github.com/robertkrimen/otto/parser"
+	. "ottoh/lib"
 )
 
-var progs = []string{
-	`var r=/a(b+)c/gi; var s=''; for(var i=0;i<5;i++){ s+= 'xabbbcx'.replace(r,'$1'); } s`,
-	`JSON.stringify(JSON.parse('{"a":[1,2,{"b":null}]}'))`,
-	`new Date(0).toISOString() + new Date(2000,1,1).getDay()`,
-	`var x=Math.random(); x>=0&&x<1`,
-	`'abcXYZ'.toUpperCase()+'ÀB'.toLowerCase()+'a'.localeCompare('b')`,
-	`[3,1,2].sort().join()+[5,1,4].sort(function(a,b){return b-a}).join()`,
-	`try{ null.x }catch(e){ e.stack||String(e) }`,
-	`try{ undefinedFn() }catch(e){ String(e) }`,
-	`console.log; typeof console`,
-	`var f=new Function('a','b','return a+b'); f(1,2)+eval('1+2')`,
-	`Object.defineProperty(Array.prototype,'zz',{get:function(){return 7},configurable:true}); [].zz`,
-	`(function(){ return arguments.length })(1,2,3)`,
-	`encodeURIComponent('a b&c/ü')+decodeURI('%41%20')+escape('ü')+unescape('%FC')`,
-	`parseInt('0x1f')+parseFloat('1e3')+Number('12')+(1e21).toString()+(0.000001).toString()+(255).toString(16)+(1.5).toFixed(2)`,
-	`'a,b,c'.split(',').length+'abc'.split('').length+'aXbXc'.split(/x/i).length`,
-	`new RegExp('^[a-z]+$').test('abc') + String(/x/g.exec('axx'))`,
-	`var o={};o.a=1;o.b=2;var k='';for(var p in o)k+=p;k`,
-	`String(new Error('x')) + (new TypeError('t')).name`,
-	`(12345.678).toLocaleString()+''+'x'.toLocaleUpperCase()`,
-	`try { eval('var 1x') } catch(e) { e.name }`,
-	`Date.parse('2000-01-01T00:00:00Z')+Date.UTC(2000,1)`,
+// ---------------------------------------------------------------- jobs
+
+type Job struct {
+	Mode  int        `json:"mode"`
+	Progs [][]string `json:"progs"` // per runtime, in order
+	Yield []int      `json:"yield"` // per runtime: Gosched between programs every k-th program (0 = never)
+	Pin   string     `json:"pin,omitempty"`
+	Setup string     `json:"setup"` // job-specific extension of setupJS (closures, objects, arrays, arguments objects of generated shapes)
 }
 
-func main() {
-	// fresh runtimes
-	var wg sync.WaitGroup
-	for g := 0; g < 8; g++ {
-		wg.Add(1)
-		go func(g int) {
-			defer wg.Done()
-			vm := otto.New()
-			for r := 0; r < 3; r++ {
-				for _, p := range progs {
-					vm.Run(p)
-				}
-			}
-		}(g)
-	}
-	wg.Wait()
-	fmt.Println("fresh ok")
-	// copies
-	t := otto.New()
-	t.Run(`var shared={a:[1,2,3],f:function(){return this.a.length}}; function inc(){ return ++shared.a[0] }`)
-	for g := 0; g < 8; g++ {
-		wg.Add(1)
-		c := t.Copy()
-		go func(g int) {
-			defer wg.Done()
-			for r := 0; r < 3; r++ {
-				for _, p := range progs {
-					c.Run(p)
-				}
-				c.Run(`inc(); shared.a.push(1); shared.f()`)
-			}
-		}(g)
-	}
-	wg.Wait()
-	fmt.Println("copies ok")
-	// concurrent Copy of same template
-	for g := 0; g < 8; g++ {
-		wg.Add(1)
-		go func(g int) {
-			defer wg.Done()
-			c := t.Copy()
-			c.Run(`inc()`)
-		}(g)
-	}
-	wg.Wait()
-	fmt.Println("concurrent copy ok")
-	// shared script + program
-	vm := otto.New()
-	var scripts []*otto.Script
-	for _, p := range progs {
-		s, err := vm.Compile("", p)
-		if err != nil {
-			panic(err)
+type Ev struct {
+	Rt  int    `json:"rt"`
+	Res string `json:"res"`
+	Ts  int64  `json:"ts"`
+}
+
+type JobResult struct {
+	Idx  int        `json:"idx"`
+	Seq  [][]string `json:"seq"`
+	Conc []Ev       `json:"conc"`
+}
+
+// ---------------------------------------------------------------- JavaScript
+
+// helper library + the state every runtime (or the template) starts from
+const setupJS = `
+function dig(x, d) {
+  d = d || 0;
+  var t = typeof x;
+  if (x === null) return 'null';
+  if (t === 'undefined') return 'u';
+  if (t === 'number') return (x === 0 && 1 / x < 0) ? '-0' : String(x);
+  if (t === 'string') return '"' + x + '"';
+  if (t === 'boolean') return String(x);
+  if (d > 3) return '#';
+  if (t === 'function') return 'fn' + (d < 2 ? digp(x, d) : '');
+  var head = Object.prototype.toString.call(x).slice(8, -1);
+  if (head === 'Date') head += ':' + x.getTime();
+  if (head === 'RegExp') head += ':' + x.source + ':' + x.lastIndex + (x.global ? 'g' : '') + (x.ignoreCase ? 'i' : '');
+  if (head === 'Error') head += ':' + x.name + ':' + x.message;
+  return head + (Object.isFrozen(x) ? 'F' : Object.isSealed(x) ? 'S' : Object.isExtensible(x) ? '' : 'N') + digp(x, d);
+}
+function digp(x, d) {
+  var ks = Object.getOwnPropertyNames(x), out = [];
+  for (var i = 0; i < ks.length; i++) {
+    var k = ks[i];
+    if (k === 'caller' || k === 'callee' || k === 'stack' || k === 'prototype' || k === 'arguments') continue;
+    var pd = Object.getOwnPropertyDescriptor(x, k);
+    var s = k + (pd.writable ? 'w' : '') + (pd.enumerable ? 'e' : '') + (pd.configurable ? 'c' : '');
+    if ('value' in pd) s += '=' + dig(pd.value, d + 1); else s += '=G' + (pd.get ? 1 : 0) + (pd.set ? 1 : 0);
+    out.push(s);
+  }
+  return '{' + out.join(',') + '}';
+}
+function keysIn(o) { var r = []; for (var k in o) r.push(k); return r.join(); }
+var T = {};
+T.o3 = {a: 1, b: 2, c: 3};
+T.o5 = {}; for (var i5 = 0; i5 < 5; i5++) T.o5['p' + i5] = i5;
+T.o9 = {}; for (var i9 = 0; i9 < 9; i9++) T.o9['q' + i9] = [i9];
+T.arr = [1, 2, 3, 4, 5, 6, 7];
+T.sparse = [0, , 2, , , 5]; T.sparse[20] = 20;
+T.nested = {x: {y: {z: [1, {w: 2}]}}};
+T.counter = (function () { var n = 0; var hist = []; return {inc: function () { hist.push(n); return ++n; }, get: function () { return n + ':' + hist.join(''); }}; })();
+T.acc = {get v() { return this._v; }, set v(x) { this._v = x * 2; }, _v: 1};
+T.bound = function (a, b) { this.hits = (this.hits || 0) + 1; return this.k + a + b + this.hits; }.bind({k: 10}, 1);
+T.date = new Date(86400000 * 365);
+T.re = /a+/g;
+T.rei = new RegExp('(b)(c)?', 'i');
+T.err = new RangeError('boom');
+T.args = (function () { return arguments; })(1, 'two', {three: 3});
+T.margs = (function (a, b) { var g = arguments; return {set: function (v) { a = v; return g[0]; }, get: function () { return g[0] + ':' + a + ':' + g.length; }}; })(1, 2);
+T.fn = function f(x) { f.calls = (f.calls || 0) + 1; return x * 2; }; T.fn.meta = {tag: 'm'};
+T.str = new String('hello'); T.num = new Number(42); T.bool = new Boolean(false);
+T.frozen = Object.freeze({q: 1, in_: [1]}); T.sealed = Object.seal({r: 2}); T.noext = Object.preventExtensions({s: 3});
+T.proto = Object.create({inherited: [1, 2]}); T.proto.own = 1;
+T.cyc = {name: 'cyc'}; T.cyc.self = T.cyc;
+T.ctor = function P(n) { this.n = n; }; T.ctor.prototype.twice = function () { return this.n * 2; }; T.inst = new T.ctor(21);
+Array.prototype.tsum = function () { var s = 0; for (var i = 0; i < this.length; i++) s += this[i] || 0; return s; };
+Object.defineProperty(Object.prototype, 'hid', {value: 7, writable: true, configurable: true, enumerable: false});
+String.prototype.shout = function () { return this.toUpperCase() + '!'; };
+T.cl = []; T.ob = []; T.ar = []; T.ma = []; T.gs = [];
+function builtins() {
+  return [Object, Function, Array, String, Boolean, Number, Math, Date, RegExp, Error, EvalError, TypeError, RangeError, ReferenceError, SyntaxError, URIError, JSON,
+    Object.prototype, Function.prototype, Array.prototype, String.prototype, Boolean.prototype, Number.prototype, Date.prototype, RegExp.prototype, Error.prototype,
+    EvalError.prototype, TypeError.prototype, RangeError.prototype, ReferenceError.prototype, SyntaxError.prototype, URIError.prototype, console, this];
+}
+function thrown(k) {
+  try { switch (k) { case 0: null.x; break; case 1: undefinedVariableXYZ; break; case 2: new Array(-1); break; case 3: decodeURI('%'); break; case 4: eval('('); break; default: throw new EvalError('e'); } } catch (e) { return e; }
+}
+function literals() {
+  return [[], {}, function () {}, '', 0, true, /x/, new Date(0), new Error('l'), thrown(0), thrown(1), thrown(2), thrown(3), thrown(4), thrown(5), (function () { return arguments; })(), JSON.parse('[1]'), JSON.parse('{"a":1}'), 'a,b'.split(','), /a/.exec('a'), Object.keys({}), [1].map(function (x) { return x; }), new String('s'), new Number(1), new Boolean(true), Object.create(null) && Object.create(Object.prototype), function () {}.bind(null)];
+}
+function census() {
+  var b = builtins(), l = literals(), out = [];
+  for (var i = 0; i < b.length; i++) out.push(Object.getOwnPropertyNames(b[i]).length);
+  for (var j = 0; j < l.length; j++) out.push(Object.getOwnPropertyNames(Object.getPrototypeOf(Object(l[j]))).length);
+  return out.join('.');
+}
+function sweep(tag) {
+  var b = builtins(), l = literals(), n = 0;
+  for (var i = 0; i < b.length; i++) { try { b[i]['sw' + tag] = tag; n++; } catch (e) {} }
+  for (var j = 0; j < l.length; j++) { try { Object.getPrototypeOf(Object(l[j]))['sl' + tag] = tag; n++; } catch (e) {} }
+  return n + ':' + census();
+}
+function peeks() {
+  var out = [];
+  for (var i = 0; i < T.cl.length; i++) out.push(T.cl[i].peek());
+  for (var j = 0; j < T.ma.length; j++) out.push(T.ma[j].peek());
+  for (var k = 0; k < T.gs.length; k++) out.push(T.gs[k].v);
+  return out.join('/');
+}
+var glob = 0; var log = [];
+function note(x) { log.push(x); if (log.length > 40) log.shift(); return log.length; }
+'ready';
+`
+
+// what the template itself answers after its copies have run
+const probeJS = `census() + '|' + peeks() + '|' + dig(T) + '|' + glob + '|' + log.join() + '|' + [1,2].tsum() + '|' + ({}).hid + '|' + 'x'.shout() + '|' + T.counter.get() + '|' + T.margs.get() + '|' + keysIn(T.o3) + '|' + typeof Math.max(1,2) + '|' + [3,1,2].sort().join()`
+
+type gen struct {
+	r *rand.Rand
+}
+
+func (g *gen) word() string {
+	pool := []string{"a", "ab", "abba", "xaay", "Hello", "wORLD", "ǅ", "ß", "İ", "ﬁ", "aaa", "b", "abcabc", "q-1", "x y", "été", "𝒳", "%41", "a,b,,c", "1e3", " 12 ", "0x1f"}
+	if g.r.Intn(4) == 0 {
+		n := 1 + g.r.Intn(6)
+		b := make([]byte, n)
+		for i := range b {
+			b[i] = "abcxyzABC019 _-"[g.r.Intn(15)]
 		}
-		scripts = append(scripts, s)
+		return string(b)
 	}
-	prog, err := parser.ParseFile(nil, "x.js", `function fib(n){return n<2?n:fib(n-1)+fib(n-2)}; var r=/a+/g; try{null.x}catch(e){}; fib(10)+"aaa".replace(r,"b")`, 0)
-	if err != nil {
-		panic(err)
+	return Pick(g.r, pool)
+}
+
+func (g *gen) num() string {
+	pool := []string{"0", "-0", "1", "-1", "0.5", "255", "1e21", "1e-7", "123.456", "4294967296", "2147483648", "NaN", "Infinity", "0.1", "1234.5678", "9007199254740993"}
+	if g.r.Intn(3) == 0 {
+		return fmt.Sprintf("(%d)", g.r.Intn(100000)-50000)
 	}
-	for g := 0; g < 8; g++ {
-		wg.Add(1)
-		go func(g int) {
-			defer wg.Done()
-			vm := otto.New()
-			for r := 0; r < 3; r++ {
-				for _, s := range scripts {
-					vm.Run(s)
+	return "(" + Pick(g.r, pool) + ")"
+}
+
+func jsq(s string) string { b, _ := json.Marshal(s); return string(b) }
+
+// programs that exercise machinery that could plausibly be shared between runtimes; R = runtime tag
+func (g *gen) generic(R int) string {
+	w, w2, n, n2 := jsq(g.word()), jsq(g.word()), g.num(), g.num()
+	k := g.r.Intn(7) + 2
+	switch g.r.Intn(44) {
+	case 0:
+		return fmt.Sprintf(`var r=/a(b+)?c|(x)/gi; var s=''; for(var i=0;i<%d;i++){ s+= (%s+'xabbbcx').replace(r,'[$1$2$&]'); } s`, k, w)
+	case 1:
+		return fmt.Sprintf(`var re=new RegExp((%s.replace(/[^a-z]/g,'')||'a')+'+','g'); var m, out=[]; var s=%s+%s+'aab'; while((m=re.exec(s))&&out.length<9){out.push(m.index+':'+m[0]); if(m[0]==='')re.lastIndex++;} out.join()+re.lastIndex`, w, w, w2)
+	case 2:
+		return fmt.Sprintf(`var p=JSON.parse('{"a":[1,2,{"b":null}],"n":%d,"s":'+JSON.stringify(%s)+'}'); Object.keys(p).sort().join()+JSON.stringify(p.a)+p.n+p.s`, R*100+k, w)
+	case 3:
+		return fmt.Sprintf(`JSON.stringify({k:%s,n:[%s,%s],d:new Date(%d),u:undefined,f:function(){}, nested:{a:[[],{}]}}, null, %d)`, w, n, n2, R*86400000+k, k%4)
+	case 4:
+		return fmt.Sprintf(`JSON.stringify([%s,%s], function(k,v){ return typeof v==='number'? v+%d : v })`, n, n2, R)
+	case 5:
+		return fmt.Sprintf(`var d=new Date(%d); d.setUTCMonth(%d); d.toISOString()+d.getUTCDay()+d.toUTCString()+d.getTimezoneOffset()+Date.UTC(2000+%d,%d)`, int64(R)*1e11+int64(k)*86400000, k, R, k)
+	case 6:
+		return fmt.Sprintf(`Date.parse('20%02d-0%d-1%dT0%d:00:00Z')+':'+new Date(%d, %d, %d).getDay()+':'+new Date('2001-02-03').getTime()`, R%90+10, k, k, k, 1990+R, k, k)
+	case 7:
+		return `var x=Math.random(), y=Math.random(); yield(); (x>=0&&x<1&&y>=0&&y<1)+':'+typeof x`
+	case 8:
+		return fmt.Sprintf(`[Math.max(%s,%s),Math.min(%s,%d),Math.round(%s),Math.floor(%s),Math.pow(2,%d),Math.abs(%s),Math.sqrt(%d),Math.atan2(%d,%s)].join()`, n, n2, n, R, n, n2, k, n, k*R, R, n)
+	case 9:
+		return fmt.Sprintf(`%s.toUpperCase()+%s.toLowerCase()+%s.toLocaleUpperCase()+%s.localeCompare(%s)+%s.trim()+%s.charAt(%d)+%s.charCodeAt(0)`, w, w2, w, w, w2, w2, w, k%3, w2)
+	case 10:
+		return fmt.Sprintf(`var a=[%s,%s,%d,3,1,2,'b','a',undefined,10,9]; a.sort().join()+'|'+a.sort(function(x,y){ yield(); return (y<x?-1:y>x?1:0) }).join()`, n, n2, R)
+	case 11:
+		return fmt.Sprintf(`var a=[]; for(var i=0;i<%d;i++) a.push({k:(i*7+%d)%%5,i:i}); a.sort(function(x,y){return x.k-y.k}).map(function(e){return e.k}).join('')`, k*4, R)
+	case 12:
+		return fmt.Sprintf(`try{ null[%s] }catch(e){ e.stack+'|'+e.name+'|'+(e instanceof TypeError) }`, w)
+	case 13:
+		return fmt.Sprintf(`function deep%d(n){ if(n==0) throw new RangeError('r'+%d); return deep%d(n-1) } try{ deep%d(%d) }catch(e){ e.stack }`, R, R, R, R, k)
+	case 14:
+		return fmt.Sprintf(`try{ undefinedFn%d() }catch(e){ String(e)+(e instanceof ReferenceError) }`, R)
+	case 15:
+		return fmt.Sprintf(`var f=new Function('a','b','return a*'+%d+'+b'); f(%d,%s)+':'+f.length+':'+eval('var ev=%d; ev+1')+':'+eval(%s)`, R, k, n, R, jsq(fmt.Sprintf("(function(){return %d})()", R)))
+	case 16:
+		return fmt.Sprintf(`try { eval('var 1x%d') } catch(e) { e.name+':'+String(e) }`, R)
+	case 17:
+		return fmt.Sprintf(`try { new Function('return )%d') } catch(e) { e.name }`, R)
+	case 18:
+		return fmt.Sprintf(`Object.defineProperty(Array.prototype,'zz%d',{get:function(){return this.length+%d},configurable:true}); [1,2].zz%d + ':' + ('zz%d' in [])`, R, R, R, R)
+	case 19:
+		return fmt.Sprintf(`(function(){ arguments[0]=%d; return arguments.length+':'+Array.prototype.slice.call(arguments).join() })(1,%s,%s)`, R, w, n)
+	case 20:
+		return fmt.Sprintf(`encodeURIComponent(%s+' &/ü')+encodeURI(%s+'?a=b c')+decodeURI('%%41%%20')+decodeURIComponent('%%C3%%BC')+escape(%s)+unescape('%%FC%%u0041')`, w, w2, w)
+	case 21:
+		return fmt.Sprintf(`try{ decodeURIComponent('%%'+%s) }catch(e){ e.name }`, w)
+	case 22:
+		return fmt.Sprintf(`[parseInt(%s),parseInt('0x1f'),parseInt('%d',%d),parseFloat(%s+'e2'),Number(%s),Number(%s)].join()`, w, R, k+1, jsq(strings.Trim(n, "()-")), w, jsq(strings.Trim(n, "()")))
+	case 23:
+		return fmt.Sprintf(`var v=%s; [String(v),v.toString(%d),v.toFixed(%d),v.toExponential(%d),v.toPrecision(%d)].join()`, n, k+1, k, k%7, k)
+	case 24:
+		return fmt.Sprintf(`try{ (%s).toFixed(%d) }catch(e){ e.name }`, n, k*20)
+	case 25:
+		return fmt.Sprintf(`(%s).toLocaleString()+':'+(%d.5).toLocaleString()+':'+new Date(0).toLocaleDateString().length`, n, R*1000)
+	case 26:
+		return fmt.Sprintf(`%s.split('').length+':'+%s.split(/[b,]/).join('|')+':'+'aXbXc'.split(/x/i,%d).length+':'+%s.split(%s).length`, w, w2, k, w, w2)
+	case 27:
+		return fmt.Sprintf(`[%s.indexOf(%s),%s.lastIndexOf('a'),%s.search(/[a-c]/),%s.slice(-%d),%s.substr(1,%d),%s.substring(%d,1)].join()+%s.match(/./g)`, w, w2, w, w, w, k, w2, k, w, k, w2)
+	case 28:
+		return fmt.Sprintf(`%s.replace(/(.)(.)?/g,function(m,a,b,i){ return i+a+(b||'')+'%d' })+%s.replace('a','$&$&')+%s.replace(/a/g,"[$'$&]")`, w, R, w2, w)
+	case 29:
+		return fmt.Sprintf(`var o={}; o.b%d=1; o.a=2; o[%s]=3; o[%d]=4; o[1]=5; delete o.a; o.a=6; keysIn(o)+'|'+Object.keys(o).join()+'|'+JSON.stringify(o)`, R, w, k)
+	case 30:
+		return fmt.Sprintf(`String(new Error(%s))+(new TypeError('t%d')).name+Object.prototype.toString.call(new SyntaxError)+(new URIError('u')).message+new EvalError(%s)`, w, R, w2)
+	case 31:
+		return fmt.Sprintf(`var e=new Error('s%d'); e.stack=5; var d=Object.getOwnPropertyDescriptor(e,'stack'); typeof e.stack+':'+(d?Object.keys(d).sort().join():'none')`, R)
+	case 32:
+		return fmt.Sprintf(`var o={}; Object.defineProperty(o,'x',{get:undefined,configurable:true}); Object.defineProperty(o,'x',{set:function(v){this.y=v+%d}}); o.x=1; var d=Object.getOwnPropertyDescriptor(o,'x'); o.y+':'+typeof d.get+':'+typeof d.set`, R)
+	case 33:
+		return fmt.Sprintf(`typeof console+':'+typeof console.log+':'+Object.keys(console).sort().join()`)
+	case 34:
+		return fmt.Sprintf(`var a=[1,2,3,4,5]; [a.map(function(x){return x*%d}).join(),a.filter(function(x){return x%%2}).join(),a.reduce(function(p,c){return p+c},%d),a.reduceRight(function(p,c){return p+'-'+c}),a.some(function(x){return x>%d}),a.every(function(x){return x>0}),a.indexOf(%d),a.concat([%s],6).length,a.slice(-%d).join(),a.splice(1,%d,'s').join(),a.reverse().join()].join('|')`, R, R, k, k, n, k, k%3)
+	case 35:
+		return fmt.Sprintf(`var a=[]; a[%d]=1; a.length=%d; a.push(%s); a.unshift(0); var s=a.shift(); a.length+':'+a.join()+':'+s+':'+(5 in a)`, k*3, k*2, n)
+	case 36:
+		return fmt.Sprintf(`var s=0; for(var i=0;i<%d;i++){ if(i%%7==3) continue; s+=i*%d; if(i%%13==0) yield(); } lab: for(var j=0;j<5;j++){ for(;;){ if(j>%d) break lab; break; } s+=j } s`, k*40, R, k%5)
+	case 37:
+		return fmt.Sprintf(`var r=''; switch(%d){ case 1: r+='1'; case 2: r+='2'; break; case %d: r+='R'; default: r+='d' } var i=0; do { r+=i } while(++i<%d); with({wv:%d}){ r+=wv } r+(typeof undeclared%d)+(void 0)`, R, R, k%4+1, R, R)
+	case 38:
+		return fmt.Sprintf(`function mk(n){ var c=n; return function(){ return c++ } } var f1=mk(%d), f2=mk(%d); f1(); f1(); f2(); [f1(),f2()].join()`, R, k)
+	case 39:
+		return fmt.Sprintf(`function fib(n){ return n<2?n:fib(n-1)+fib(n-2) } fib(%d)+':'+(function f(n){ return n? n+f(n-1):0 })(%d)`, 8+k, R*10)
+	case 40:
+		return fmt.Sprintf(`var o=Object.create({p:%d},{q:{value:%s,enumerable:true}}); [o.p,o.q,Object.getPrototypeOf(o).p,o.hasOwnProperty('p'),'p' in o,Object.keys(o).join(),o.propertyIsEnumerable('q'),({}).toString.call(o),o.isPrototypeOf(o),Object.getPrototypeOf(o).isPrototypeOf(o)].join()`, R, n)
+	case 41:
+		return fmt.Sprintf(`var b=function(a,b,c){ return [this.t,a,b,c].join() }.bind({t:%d},%s); b(%s,3)+':'+b.length+':'+new (function(a){ this.a=a }.bind(null,%d))().a`, R, w, n, R)
+	case 42:
+		return fmt.Sprintf(`[typeof %s, %s+%s, %s-%s, '5'*'%d', %d/0, -%d%%3, %d<<%d, -1>>>%d, %s==%s, null==undefined, NaN!=NaN, %s<%s, !%s, ~%d, %s&&%s, %s||%s, 1,%s?%d:0].join()`, n, w, n, n, n2, R, R, R, R, k, k, w, w2, w, w2, w, R, n, n2, n, w, w, R)
+	default:
+		return fmt.Sprintf(`glob += %d; glob`, R)
+	}
+}
+
+// programs that mutate and observe the state built by setupJS
+func (g *gen) stateful(R int) string {
+	k := g.r.Intn(9)
+	switch g.r.Intn(38) {
+	case 0:
+		return fmt.Sprintf(`T.o3['k%d_%d'] = %d; dig(T.o3)+keysIn(T.o3)`, R, k, R)
+	case 1:
+		return fmt.Sprintf(`T.o5.n%d = [%d]; T.o5.p1 += %d; delete T.o5.p%d; dig(T.o5)`, R, k, R, k%5)
+	case 2:
+		return fmt.Sprintf(`T.o9['r%d'] = %d; T.o9.q%d.push(%d); yield(); dig(T.o9)`, R, R, k, R)
+	case 3:
+		return fmt.Sprintf(`T.arr.push(%d, %d); T.arr[%d] = 'w%d'; T.arr.length + ':' + T.arr.join() + ':' + T.arr.tsum()`, R, k, k, R)
+	case 4:
+		return fmt.Sprintf(`T.arr.splice(%d, 1); T.arr.reverse(); T.arr.unshift(%d); T.arr.join()`, k%4, R)
+	case 5:
+		return fmt.Sprintf(`T.sparse[%d] = %d; T.sparse.length += %d; dig(T.sparse)`, 7+k+R, R, k%3)
+	case 6:
+		return fmt.Sprintf(`T.counter.inc(); yield(); T.counter.inc(); T.counter.get()`)
+	case 7:
+		return fmt.Sprintf(`T.acc.v = %d; T.acc.v + ':' + T.acc._v`, R*10+k)
+	case 8:
+		return fmt.Sprintf(`T.date.setTime(T.date.getTime() + %d); T.date.setUTCHours(%d); T.date.toISOString()`, R*1000, k)
+	case 9:
+		return fmt.Sprintf(`T.re.test('x' + new Array(%d).join('a') + 'yaa'); T.re.lastIndex + ':' + T.re.test('aaaa') + ':' + T.re.lastIndex`, R+2)
+	case 10:
+		return fmt.Sprintf(`T.rei.lastIndex = %d; var m = T.rei.exec('aBcbC'.slice(%d)); dig(m) + T.rei.lastIndex + T.rei.source`, R, k%3)
+	case 11:
+		return fmt.Sprintf(`T.err.message += '%d'; T.err['x%d'] = %d; String(T.err) + dig(T.err)`, R, R, k)
+	case 12:
+		return fmt.Sprintf(`T.args[0] = %d; T.args[%d] = 'n'; T.args.length + dig(T.args)`, R, 3+k%2)
+	case 13:
+		return fmt.Sprintf(`T.margs.set(%d) + '|' + T.margs.get()`, R*7+k)
+	case 14:
+		return fmt.Sprintf(`T.fn(%d); T.fn.meta['t%d'] = %d; T.fn.calls + dig(T.fn)`, R, R, k)
+	case 15:
+		return fmt.Sprintf(`T.nested.x.y.z[1].w += %d; T.nested.x.y.z.push(%d); T.nested.x['n%d'] = {}; dig(T.nested) + JSON.stringify(T.nested)`, R, k, R)
+	case 16:
+		return fmt.Sprintf(`Array.prototype.tsum = function () { return %d + this.length; }; [1, 2, 3].tsum() + ':' + T.arr.tsum()`, R*100)
+	case 17:
+		return fmt.Sprintf(`Object.prototype.hid = %d; ({}).hid + ':' + [].hid + ':' + T.o3.hid`, R)
+	case 18:
+		return fmt.Sprintf(`Object.defineProperty(T.o3, 'g%d', {get: function () { return %d; }, enumerable: %v, configurable: true}); dig(T.o3) + T.o3.g%d`, R, R*3, k%2 == 0, R)
+	case 19:
+		return fmt.Sprintf(`Math.max = function () { return %d; }; Math['c%d'] = %d; Math.max(1, 2) + ':' + Math.c%d + ':' + Math.min(3, 4)`, R, R, k, R)
+	case 20:
+		return fmt.Sprintf(`String.prototype.shout = function () { return this + '%d'; }; 'a'.shout() + T.str.shout() + T.str.length`, R)
+	case 21:
+		return fmt.Sprintf(`T.bound(%d) + ':' + T.bound(%d)`, R, k)
+	case 22:
+		return fmt.Sprintf(`T.proto.inherited.push(%d); T.proto.own += %d; dig(Object.getPrototypeOf(T.proto)) + dig(T.proto) + keysIn(T.proto)`, R, R)
+	case 23:
+		return fmt.Sprintf(`var r = []; try { 'use strict'; T.frozen.q = %d; } catch (e) { r.push(e.name); } T.frozen.in_.push(%d); T.sealed.r = %d; T.sealed['z%d'] = 1; T.noext['z%d'] = 1; delete T.noext.s; r.join() + dig(T.frozen) + dig(T.sealed) + dig(T.noext)`, R, R, R, R, R)
+	case 24:
+		return fmt.Sprintf(`T.cyc['c%d'] = T.cyc; T.cyc.name += '%d'; dig(T.cyc)`, R, R)
+	case 25:
+		return fmt.Sprintf(`T.ctor.prototype.twice = function () { return this.n * %d; }; T.inst.n += %d; T.inst.twice() + ':' + new T.ctor(%d).twice() + ':' + (T.inst instanceof T.ctor)`, R+2, R, k)
+	case 26:
+		return fmt.Sprintf(`T.str['x%d'] = %d; T.num.y = T.num + %d; T.bool.z = !T.bool; dig(T.str) + dig(T.num) + dig(T.bool)`, R, k, R)
+	case 27:
+		return fmt.Sprintf(`glob += %d; note('g%d_' + glob); glob + ':' + log.join()`, R, R)
+	case 28:
+		return fmt.Sprintf(`function again%d() { return %d + glob; } this['dyn%d'] = again%d; note(typeof again%d); again%d() + ':' + Object.keys(this).length`, R, k, R, R, R, R)
+	case 29:
+		return fmt.Sprintf(`delete T.o3.a; delete T.o3.k%d_%d; T.o3.a = %d; keysIn(T.o3) + dig(T.o3)`, R, k, R)
+	case 30:
+		return fmt.Sprintf(`Object.defineProperty(T.o5, 'p2', {enumerable: false, writable: %v}); T.o5.p2 = %d; dig(T.o5) + keysIn(T.o5)`, k%2 == 0, R)
+	case 31:
+		return fmt.Sprintf(`Object.freeze(T.o9.q%d); T.o9.q%d.push && (function () { try { T.o9.q%d.push(%d); } catch (e) { note(e.name); } })(); dig(T.o9) + log.join()`, k, k, k, R)
+	case 32:
+		return fmt.Sprintf(`Date.prototype.getTime = (function (orig) { return function () { return orig.call(this) + %d; }; })(Date.prototype.getTime); T.date.getTime() + ':' + new Date(5).getTime()`, R)
+	case 33:
+		return fmt.Sprintf(`RegExp.prototype.test = (function (orig) { return function (s) { note('t%d'); return orig.call(this, s); }; })(RegExp.prototype.test); /b/.test('abc') + ':' + T.re.test('a') + ':' + log.join()`, R)
+	case 34:
+		return fmt.Sprintf(`Error.prototype.name = 'E%d'; Function.prototype.tag = %d; JSON.tag = %d; String(new Error('m')) + ':' + T.fn.tag + ':' + JSON.tag + ':' + String(T.err)`, R, R, R)
+	case 35:
+		return fmt.Sprintf(`undefined_global_%d = %d; var declared_%d = %d; dig(T.args) + (typeof undefined_global_%d) + this.declared_%d`, R, k, R, k, R, R)
+	case 36:
+		return `dig(T)`
+	default:
+		return probeJS
+	}
+}
+
+
+// job-specific state: closures with many captured variables at several depths,
+// objects and arrays of boundary sizes, mapped arguments objects, accessors over hidden state
+func (g *gen) extraSetup() string {
+	r := g.r
+	var b strings.Builder
+	sizes := []int{0, 1, 2, 3, 4, 5, 7, 8, 9, 15, 16, 17, 31, 32, 33, 64, 65}
+	ncl := 1 + r.Intn(4)
+	for c := 0; c < ncl; c++ {
+		nv := Pick(r, []int{1, 2, 3, 4, 5, 8, 9, 16, 17})
+		depth := 1 + r.Intn(3)
+		var decl, bump, list []string
+		for i := 0; i < nv; i++ {
+			decl = append(decl, fmt.Sprintf("v%d=%d", i, i))
+			bump = append(bump, fmt.Sprintf("v%d+=k+%d;", i, i))
+			list = append(list, fmt.Sprintf("v%d", i))
+		}
+		extraVars := []string{}
+		if depth >= 2 {
+			extraVars = append(extraVars, "u")
+		}
+		if depth >= 3 {
+			extraVars = append(extraVars, "t")
+		}
+		for _, v := range extraVars {
+			bump = append(bump, v+"+=k;")
+			list = append(list, v)
+		}
+		obj := fmt.Sprintf("{bump:function(k){%s return [%s].join();},peek:function(){return [%s].join();},mk:function(){var own=0;return function(){own++;v0++;return own+':'+v0;};}}", strings.Join(bump, ""), strings.Join(list, ","), strings.Join(list, ","))
+		inner := "return " + obj + ";"
+		if depth >= 3 {
+			inner = "return (function(){var t=1000;" + inner + "})();"
+		}
+		if depth >= 2 {
+			inner = "return (function(){var u=100;" + inner + "})();"
+		}
+		fmt.Fprintf(&b, "T.cl.push((function(){var %s;%s})());\n", strings.Join(decl, ","), inner)
+	}
+	nob := 1 + r.Intn(4)
+	for c := 0; c < nob; c++ {
+		fmt.Fprintf(&b, "(function(m){var o={};for(var i=0;i<m;i++)o['f'+i]=i;T.ob.push(o);})(%d);\n", Pick(r, sizes))
+	}
+	nar := 1 + r.Intn(3)
+	for c := 0; c < nar; c++ {
+		fmt.Fprintf(&b, "(function(m){var a=[];for(var i=0;i<m;i++)a.push(i%%7);T.ar.push(a);})(%d);\n", Pick(r, sizes))
+	}
+	nma := 1 + r.Intn(3)
+	for c := 0; c < nma; c++ {
+		np, na := r.Intn(5), r.Intn(7)
+		var ps, as []string
+		for i := 0; i < np; i++ {
+			ps = append(ps, fmt.Sprintf("p%d", i))
+		}
+		for i := 0; i < na; i++ {
+			as = append(as, fmt.Sprintf("%d", 10+i))
+		}
+		plist := "''"
+		setp := "return 'nop';"
+		if np > 0 {
+			plist = "[" + strings.Join(ps, ",") + "].join()"
+			setp = fmt.Sprintf("p%d=v;return g[%d];", np-1, np-1)
+		}
+		fmt.Fprintf(&b, "T.ma.push((function(%s){var g=arguments;return {g:g,set:function(i,v){g[i]=v;return %s;},setp:function(v){%s},del:function(i){return delete g[i];},def:function(i,v){Object.defineProperty(g,String(i),{value:v,writable:true,enumerable:true,configurable:true});return g[i];},peek:function(){return %s+'|'+Array.prototype.join.call(g)+'|'+g.length;}};})(%s));\n",
+			strings.Join(ps, ","), plist, setp, plist, strings.Join(as, ","))
+	}
+	ngs := 1 + r.Intn(3)
+	for c := 0; c < ngs; c++ {
+		fmt.Fprintf(&b, "T.gs.push((function(){var hidden=%d;var o={};Object.defineProperty(o,'v',{get:function(){return hidden;},set:function(x){hidden=x+1;},enumerable:true,configurable:true});return o;})());\n", r.Intn(100))
+	}
+	b.WriteString("'extra';")
+	return b.String()
+}
+
+var builtinExprs = []string{"Object", "Function", "Array", "String", "Boolean", "Number", "Math", "Date", "RegExp", "Error", "EvalError", "TypeError", "RangeError", "ReferenceError", "SyntaxError", "URIError", "JSON",
+	"Object.prototype", "Function.prototype", "Array.prototype", "String.prototype", "Boolean.prototype", "Number.prototype", "Date.prototype", "RegExp.prototype", "Error.prototype",
+	"EvalError.prototype", "TypeError.prototype", "RangeError.prototype", "ReferenceError.prototype", "SyntaxError.prototype", "URIError.prototype", "console", "this", "eval", "parseInt", "Math.max", "Array.prototype.push", "Object.prototype.toString"}
+
+// programs over the job-specific state and over every built-in object
+func (g *gen) shaped(R int) string {
+	r := g.r
+	i, k := r.Intn(8), r.Intn(9)
+	switch r.Intn(24) {
+	case 22, 23:
+		return fmt.Sprintf(`sweep('%d_%d')`, R, k)
+	case 0, 1:
+		return fmt.Sprintf(`var c = T.cl[%d %% T.cl.length]; c.bump(%d) + '|' + c.peek()`, i, R)
+	case 2:
+		return fmt.Sprintf(`var c = T.cl[%d %% T.cl.length]; var f = c.mk(); f(); yield(); f() + '|' + c.peek()`, i)
+	case 3, 4:
+		return fmt.Sprintf(`var o = T.ob[%d %% T.ob.length]; o['n%d_%d'] = %d; delete o.f%d; keysIn(o) + dig(o)`, i, R, k, R, k)
+	case 5:
+		return fmt.Sprintf(`var o = T.ob[%d %% T.ob.length]; for (var q = 0; q < %d; q++) o['g%d_' + q] = q; Object.keys(o).length + ':' + keysIn(o)`, i, k*3, R)
+	case 6, 7:
+		return fmt.Sprintf(`var a = T.ar[%d %% T.ar.length]; a.push(%d); a[a.length + %d] = %d; a.length + ':' + a.join()`, i, R, k%3, R)
+	case 8:
+		return fmt.Sprintf(`var a = T.ar[%d %% T.ar.length]; a.length = Math.max(0, a.length - %d); a.sort(function (x, y) { return (x || 0) - (y || 0) + %d * 0; }); a.length + ':' + a.join()`, i, k, R)
+	case 9:
+		return fmt.Sprintf(`var m = T.ma[%d %% T.ma.length]; m.set(%d, %d) + '|' + m.peek()`, i, k%5, R)
+	case 10:
+		return fmt.Sprintf(`var m = T.ma[%d %% T.ma.length]; m.setp(%d) + '|' + m.peek()`, i, R*11)
+	case 11:
+		return fmt.Sprintf(`var m = T.ma[%d %% T.ma.length]; m.del(%d) + '|' + m.set(%d, %d) + '|' + m.peek()`, i, k%4, k%4, R)
+	case 12:
+		return fmt.Sprintf(`var m = T.ma[%d %% T.ma.length]; m.def(%d, %d) + '|' + m.setp(%d) + '|' + m.peek() + dig(m.g)`, i, k%4, R, R+1)
+	case 13:
+		return fmt.Sprintf(`var s = T.gs[%d %% T.gs.length]; s.v = %d; s.v + ':' + dig(s)`, i, R*5+k)
+	case 14, 15, 16:
+		e := Pick(r, builtinExprs)
+		return fmt.Sprintf(`var B = %s; B['m%d_%d'] = %d; Object.getOwnPropertyNames(B).length + ':' + B['m%d_%d'] + ':' + census()`, e, R, k, R, R, k)
+	case 17, 18:
+		return fmt.Sprintf(`var L = literals(); var P = Object.getPrototypeOf(Object(L[%d %% L.length])); P['lp%d'] = %d; Object.getOwnPropertyNames(P).length + ':' + census()`, r.Intn(40), R, R)
+	case 19:
+		m := Pick(r, []string{"String.prototype.trim", "Array.prototype.indexOf", "Object.keys", "JSON.stringify", "Math.abs", "Date.now", "Number.prototype.toFixed", "RegExp.prototype.exec", "Function.prototype.bind", "Error.prototype.toString"})
+		return fmt.Sprintf(`var was = typeof %s; delete %s; was + ':' + typeof %s + ':' + census()`, m, m, m)
+	case 20:
+		return fmt.Sprintf(`Array.prototype.push = function (x) { this[this.length] = x + %d; return -1; }; var a = []; a.push(1); parseInt = function () { return %d; }; a[0] + ':' + parseInt('5') + ':' + [1].concat([2]).length`, R, R)
+	default:
+		return fmt.Sprintf(`console['c%d'] = %d; console.log = function () { return %d; }; console.log() + ':' + Object.keys(console).sort().join()`, R, k, R)
+	}
+}
+
+func (g *gen) job(idx int) Job {
+	r := g.r
+	mode := idx % 9
+	if r.Intn(5) == 0 {
+		mode = r.Intn(9)
+	}
+	sharing := mode % 3
+	nrt := 2 + r.Intn(4)
+	if r.Intn(6) == 0 {
+		nrt = 6 + r.Intn(3)
+	}
+	j := Job{Mode: mode, Setup: g.extraSetup()}
+	var pool []string // shared scripts: several runtimes run the very same text (hence the same Script/Program object)
+	if sharing != 0 {
+		np := 3 + r.Intn(6)
+		for i := 0; i < np; i++ {
+			// a shared program cannot mention the runtime tag: it is the same text for all
+			switch r.Intn(3) {
+			case 0:
+				pool = append(pool, g.generic(7))
+			case 1:
+				pool = append(pool, g.stateful(7))
+			default:
+				pool = append(pool, g.shaped(7))
+			}
+		}
+	}
+	for rt := 0; rt < nrt; rt++ {
+		np := 3 + r.Intn(7)
+		var ps []string
+		for i := 0; i < np; i++ {
+			switch {
+			case sharing != 0 && r.Intn(4) != 0:
+				ps = append(ps, Pick(r, pool))
+			case r.Intn(3) == 0:
+				ps = append(ps, g.stateful(rt+1))
+			case r.Intn(2) == 0:
+				ps = append(ps, g.shaped(rt+1))
+			default:
+				ps = append(ps, g.generic(rt+1))
+			}
+		}
+		ps = append(ps, probeJS)
+		j.Progs = append(j.Progs, ps)
+		j.Yield = append(j.Yield, r.Intn(4))
+	}
+	return j
+}
+
+// pinned program sets, run first on every seed: every runtime appends distinct
+// properties to the same template objects and enumerates them; all runtimes
+// execute one function-heavy shared script many times
+func pinnedJobs() []Job {
+	var js []Job
+	for _, mode := range []int{3, 6, 1, 2, 4} {
+		j := Job{Mode: mode, Pin: "pinned"}
+		for rt := 0; rt < 4; rt++ {
+			R := rt + 1
+			var ps []string
+			if mode%3 == 0 {
+				for i := 0; i < 6; i++ {
+					ps = append(ps, fmt.Sprintf(`T.o3['k%d_%d'] = %d; T.o5['k%d_%d'] = 1; T.o9['k%d_%d'] = 1; T.arr.push(%d); T.counter.inc(); T.re.test('xaa'); keysIn(T.o3) + '|' + keysIn(T.o5) + '|' + keysIn(T.o9) + '|' + T.arr.join() + '|' + T.counter.get() + '|' + T.re.lastIndex`, R, i, R, R, i, R, i, R*10+i))
 				}
-				v, err := vm.Run(prog)
-				_ = v
-				if err != nil {
-					panic(err)
+				ps = append(ps, fmt.Sprintf(`sweep('p%d')`, R))
+			} else {
+				shared := `function w(n){ var o={}, a=[]; for(var i=0;i<n;i++){ o['k'+i]=i; a.push(function(){ return i }); } try { null.x } catch(e) { o.e=e.name } var r=/k(\d)/g, s=''; keysIn(o).replace(r,function(m,d){ s+=d }); return s+a.length+o.e+[3,1,2].sort().join()+JSON.stringify({a:[1,{b:2}]})+new Date(0).toISOString()+(1.5).toFixed(1)+'A'.toLowerCase() } glob += 1; T.counter.inc(); w(12) + glob + T.counter.get()`
+				for i := 0; i < 8; i++ {
+					ps = append(ps, shared)
 				}
 			}
-		}(g)
+			ps = append(ps, probeJS)
+			j.Progs = append(j.Progs, ps)
+			j.Yield = append(j.Yield, rt%3)
+		}
+		js = append(js, j)
+	}
+	return js
+}
+
+// ---------------------------------------------------------------- running (child side)
+
+func resultText(o Outcome) string {
+	switch {
+	case o.Panic != nil:
+		return fmt.Sprintf("!panic %v", o.Panic)
+	case o.Err != nil:
+		return "!err " + o.Err.Error()
+	}
+	return o.Val.String()
+}
+
+func yieldFn() { goruntime.Gosched() }
+
+func newTemplate(extra string) *otto.Otto {
+	vm := otto.New()
+	Must(vm.Set("yield", yieldFn))
+	if o := RunJS(vm, setupJS); o.Err != nil || o.Panic != nil {
+		panic(fmt.Sprintf("setup script failed: %v %v", o.Err, o.Panic))
+	}
+	if extra != "" {
+		if o := RunJS(vm, extra); o.Err != nil || o.Panic != nil {
+			panic(fmt.Sprintf("job setup script failed: %v %v\n%s", o.Err, o.Panic, extra))
+		}
+	}
+	return vm
+}
+
+type shared struct {
+	scripts  map[string]*otto.Script
+	programs map[string]*ast.Program
+}
+
+func compileShared(j Job) *shared {
+	sh := &shared{scripts: map[string]*otto.Script{}, programs: map[string]*ast.Program{}}
+	switch j.Mode % 3 {
+	case 1:
+		c := otto.New()
+		for _, ps := range j.Progs {
+			for _, p := range ps {
+				if _, ok := sh.scripts[p]; !ok {
+					s, err := c.Compile("", p)
+					if err == nil {
+						sh.scripts[p] = s
+					}
+				}
+			}
+		}
+	case 2:
+		for _, ps := range j.Progs {
+			for _, p := range ps {
+				if _, ok := sh.programs[p]; !ok {
+					pr, err := parser.ParseFile(nil, "", p, 0)
+					if err == nil {
+						sh.programs[p] = pr
+					}
+				}
+			}
+		}
+	}
+	return sh
+}
+
+func runOne(vm *otto.Otto, sh *shared, p string) Outcome {
+	if sh != nil {
+		if s, ok := sh.scripts[p]; ok {
+			return Guard(func() (otto.Value, error) { return vm.Run(s) })
+		}
+		if pr, ok := sh.programs[p]; ok {
+			return Guard(func() (otto.Value, error) { return vm.Run(pr) })
+		}
+	}
+	return RunJS(vm, p)
+}
+
+func runList(vm *otto.Otto, sh *shared, rt int, ps []string, yield int, out *[]Ev) {
+	for i, p := range ps {
+		o := runOne(vm, sh, p)
+		*out = append(*out, Ev{Rt: rt, Res: resultText(o), Ts: time.Now().UnixNano()})
+		if yield > 0 && i%yield == 0 {
+			goruntime.Gosched()
+		}
+	}
+}
+
+func runJob(idx int, j Job) JobResult {
+	res := JobResult{Idx: idx}
+	origin := j.Mode / 3
+	n := len(j.Progs)
+	// --- each runtime alone, private template, private compilation
+	for rt := 0; rt < n; rt++ {
+		var evs []Ev
+		// never a copy: a copy of a template must behave as the runtime it was copied from
+		vm := newTemplate(j.Setup)
+		runList(vm, nil, rt, j.Progs[rt], 0, &evs)
+		tr := make([]string, len(evs))
+		for i, e := range evs {
+			tr[i] = e.Res
+		}
+		res.Seq = append(res.Seq, tr)
+	}
+	if origin != 0 {
+		// the template alone: copied n times, copies left idle, then probed
+		t := newTemplate(j.Setup)
+		for rt := 0; rt < n; rt++ {
+			_ = t.Copy()
+		}
+		res.Seq = append(res.Seq, []string{resultText(RunJS(t, probeJS))})
+	}
+	// --- all runtimes together
+	sh := compileShared(j)
+	var template *otto.Otto
+	vms := make([]*otto.Otto, n)
+	if origin != 0 {
+		template = newTemplate(j.Setup)
+	}
+	if origin == 1 {
+		for rt := range vms {
+			vms[rt] = template.Copy()
+		}
+	}
+	per := make([][]Ev, n)
+	var wg sync.WaitGroup
+	start := make(chan struct{})
+	for rt := 0; rt < n; rt++ {
+		wg.Add(1)
+		go func(rt int) {
+			defer wg.Done()
+			<-start
+			vm := vms[rt]
+			switch origin {
+			case 0:
+				vm = newTemplate(j.Setup)
+			case 2:
+				vm = template.Copy()
+			}
+			runList(vm, sh, rt, j.Progs[rt], j.Yield[rt], &per[rt])
+		}(rt)
+	}
+	close(start)
+	wg.Wait()
+	for _, evs := range per {
+		res.Conc = append(res.Conc, evs...)
+	}
+	if origin != 0 {
+		res.Conc = append(res.Conc, Ev{Rt: n, Res: resultText(RunJS(template, probeJS)), Ts: time.Now().UnixNano()})
+	}
+	sort.SliceStable(res.Conc, func(a, b int) bool { return res.Conc[a].Ts < res.Conc[b].Ts })
+	return res
+}
+
+func childMain(args []string) {
+	if len(args) < 2 {
+		fmt.Fprintln(os.Stderr, "usage: -child jobs.json start")
+		os.Exit(2)
+	}
+	bs, err := os.ReadFile(args[0])
+	Must(err)
+	var jobs []Job
+	Must(json.Unmarshal(bs, &jobs))
+	var start, end int
+	fmt.Sscanf(args[1], "%d", &start)
+	end = len(jobs)
+	if len(args) > 2 {
+		fmt.Sscanf(args[2], "%d", &end)
+	}
+	if goruntime.GOMAXPROCS(0) < 4 {
+		goruntime.GOMAXPROCS(4)
+	}
+	w := bufio.NewWriter(os.Stdout)
+	for i := start; i < end && i < len(jobs); i++ {
+		fmt.Fprintf(os.Stderr, "@@job %d\n", i)
+		// a job takes well under a second; one that does not end (a runtime wedged by state that
+		// another runtime changed under it) is an observation too
+		wd := time.AfterFunc(150*time.Second, func() {
+			fmt.Fprintf(os.Stderr, "job %d did not finish within 150 s (runtimes wedged)\n", i)
+			os.Exit(67)
+		})
+		r := runJob(i, jobs[i])
+		wd.Stop()
+		b, _ := json.Marshal(r)
+		w.Write(b)
+		w.WriteByte('\n')
+		w.Flush()
+	}
+}
+
+// ---------------------------------------------------------------- parent side
+
+type observed struct {
+	res      *JobResult
+	abnormal int    // exit code, 0 = none
+	report   string // head of the child's stderr
+}
+
+func runBatch(exe, jobsFile string, from, to int, out []observed) {
+	for from < to {
+		cmd := exec.Command(exe, "-child", jobsFile, fmt.Sprint(from), fmt.Sprint(to))
+		cmd.Env = append(os.Environ(), "GORACE=halt_on_error=1 exitcode=66", "GOMAXPROCS=4")
+		var stdout, stderr bytes.Buffer
+		cmd.Stdout, cmd.Stderr = &stdout, &stderr
+		done := make(chan error, 1)
+		Must(cmd.Start())
+		go func() { done <- cmd.Wait() }()
+		var err error
+		select {
+		case err = <-done:
+		case <-time.After(time.Duration(120+20*(to-from)) * time.Second):
+			_ = cmd.Process.Kill()
+			err = fmt.Errorf("timeout")
+			<-done
+		}
+		next := from
+		sc := bufio.NewScanner(&stdout)
+		sc.Buffer(make([]byte, 1<<20), 1<<28)
+		for sc.Scan() {
+			var r JobResult
+			if json.Unmarshal(sc.Bytes(), &r) == nil && r.Idx >= from && r.Idx < to {
+				rr := r
+				out[r.Idx].res = &rr
+				if r.Idx+1 > next {
+					next = r.Idx + 1
+				}
+			}
+		}
+		if err == nil {
+			return
+		}
+		// the job that was running when the child ended is `next`
+		code := 1
+		if ee, ok := err.(*exec.ExitError); ok {
+			code = ee.ExitCode()
+			if code <= 0 {
+				code = 1
+			}
+		} else {
+			code = 124
+		}
+		if next >= to {
+			return
+		}
+		out[next].abnormal = code
+		out[next].report = reportHead(stderr.String())
+		from = next + 1
+	}
+}
+
+func reportHead(s string) string {
+	// keep what follows the last job marker
+	if i := strings.LastIndex(s, "@@job "); i >= 0 {
+		s = s[i:]
+		if k := strings.Index(s, "\n"); k >= 0 {
+			s = s[k+1:]
+		}
+	}
+	lines := strings.Split(s, "\n")
+	var keep []string
+	for _, l := range lines {
+		l = strings.TrimRight(l, " \t")
+		if l == "" {
+			continue
+		}
+		keep = append(keep, strings.TrimSpace(l))
+		if len(keep) >= 28 {
+			break
+		}
+	}
+	return strings.Join(keep, " / ")
+}
+
+func cResult(s string) string {
+	u := Units(s)
+	h := fnv.New64a()
+	h.Write([]byte(s))
+	head := u
+	if len(head) > 40 {
+		head = head[:40]
+	}
+	items := make([]string, 0, len(head)+2)
+	for _, c := range head {
+		items = append(items, fmt.Sprint(c))
+	}
+	items = append(items, fmt.Sprint(len(u)), fmt.Sprint(h.Sum64()>>2))
+	return Clist(items)
+}
+
+func clip(s string, n int) string {
+	if len(s) > n {
+		return s[:n] + "…"
+	}
+	return s
+}
+
+var modeNames = []string{"fresh/source", "fresh/shared-Script", "fresh/shared-Program", "copies/source", "copies/shared-Script", "copies/shared-Program", "concurrent-Copy/source", "concurrent-Copy/shared-Script", "concurrent-Copy/shared-Program"}
+
+func main() {
+	if len(os.Args) > 1 && os.Args[1] == "-child" {
+		childMain(os.Args[2:])
+		return
+	}
+	env := FromFlags("c20_race")
+	env.Import = "Otto.C20.Corr"
+	env.Rule = "a case = one job: 2-8 runtimes (fresh / copies of one template / copies made concurrently; running source text / the same compiled Scripts / the same parsed Programs), each with its own program list (3-10 programs mutating and digesting a rich shared-looking state, plus regexp, JSON, Date, Math.random, case mapping, sort, stack traces, eval/Function, number formatting, URI coding), run once alone and once concurrently under the race detector; non-trivial = the completion order of the concurrent run genuinely interleaves the runtimes (it is not a concatenation of solo runs) and no runtime's trace is empty"
+	g := &gen{r: env.Rng}
+	jobs := pinnedJobs()
+	for len(jobs) < env.N {
+		jobs = append(jobs, g.job(len(jobs)))
+	}
+	jobsFile := filepath.Join(env.Out, "jobs.json")
+	bs, _ := json.Marshal(jobs)
+	Must(os.WriteFile(jobsFile, bs, 0o644))
+	exe, err := os.Executable()
+	Must(err)
+	workers := goruntime.NumCPU() / 3
+	if workers < 2 {
+		workers = 2
+	}
+	if workers > 6 {
+		workers = 6
+	}
+	obs := make([]observed, len(jobs))
+	per := (len(jobs) + workers - 1) / workers
+	var wg sync.WaitGroup
+	for w := 0; w < workers; w++ {
+		from, to := w*per, (w+1)*per
+		if to > len(jobs) {
+			to = len(jobs)
+		}
+		if from >= to {
+			break
+		}
+		wg.Add(1)
+		go func(from, to int) {
+			defer wg.Done()
+			runBatch(exe, jobsFile, from, to, obs)
+		}(from, to)
 	}
 	wg.Wait()
-	fmt.Println("shared script ok")
+
+	races, interleaved := 0, 0
+	var failures []string
+	for i, j := range jobs {
+		o := obs[i]
+		n := len(j.Progs)
+		if j.Mode/3 != 0 {
+			n++ // the template probe
+		}
+		progText, _ := json.Marshal(j.Progs)
+		bucket := modeNames[j.Mode]
+		// the deterministic description of the job: identical on every run with the same seed, so that a
+		// replay finds the case again; what was observed for a failing job goes into a second case
+		desc := fmt.Sprintf("job=%d mode=%d(%s) runtimes=%d yield=%v programs=%s setup=%s", i, j.Mode, bucket, len(j.Progs), j.Yield, string(progText), jsq(j.Setup))
+		if j.Pin != "" {
+			desc = "pinned " + desc
+		}
+		if o.res == nil {
+			code := o.abnormal
+			if code == 0 {
+				code = 125 // the child produced nothing for this job
+				o.report = "no result was produced for this job"
+			}
+			races++
+			term := fmt.Sprintf("CRun %d %d [] [] [%d]", j.Mode, n, code)
+			env.Add(term, desc, bucket+" abnormal", true)
+			env.Add(term, fmt.Sprintf("job=%d OBSERVED child ended abnormally, exit=%d (66 = race detector report, 2 = Go fatal error such as concurrent map writes, 67 = job did not finish): %s", i, code, clip(o.report, 4000)), bucket+" abnormal", true)
+			failures = append(failures, fmt.Sprintf("job=%d exit=%d %s", i, code, clip(o.report, 1500)))
+			continue
+		}
+		r := o.res
+		seqItems := make([]string, len(r.Seq))
+		for k, tr := range r.Seq {
+			it := make([]string, len(tr))
+			for m, s := range tr {
+				it[m] = cResult(s)
+			}
+			seqItems[k] = Clist(it)
+		}
+		concItems := make([]string, len(r.Conc))
+		order := make([]string, len(r.Conc))
+		for k, e := range r.Conc {
+			concItems[k] = fmt.Sprintf("(%d, %s)", e.Rt, cResult(e.Res))
+			order[k] = fmt.Sprint(e.Rt)
+		}
+		// non-trivial: the completion order switches runtime more often than a concatenation would
+		switches := 0
+		for k := 1; k < len(r.Conc); k++ {
+			if r.Conc[k].Rt != r.Conc[k-1].Rt {
+				switches++
+			}
+		}
+		nontriv := switches >= n
+		if nontriv {
+			interleaved++
+		}
+		// what differs, for the replay text
+		diff := ""
+		perRt := make([][]string, n)
+		for _, e := range r.Conc {
+			if e.Rt >= 0 && e.Rt < n {
+				perRt[e.Rt] = append(perRt[e.Rt], e.Res)
+			}
+		}
+		for k := 0; k < n && k < len(r.Seq) && diff == ""; k++ {
+			for m := 0; m < len(r.Seq[k]) || m < len(perRt[k]); m++ {
+				a, b := "<none>", "<none>"
+				if m < len(r.Seq[k]) {
+					a = r.Seq[k][m]
+				}
+				if m < len(perRt[k]) {
+					b = perRt[k][m]
+				}
+				if a != b {
+					what := fmt.Sprintf("runtime %d", k)
+					if k == len(j.Progs) {
+						what = "the template (probed after its copies ran)"
+					}
+					diff = fmt.Sprintf("%s, program #%d: alone=%s concurrent=%s", what, m, clip(a, 1200), clip(b, 1200))
+					break
+				}
+			}
+		}
+		term := fmt.Sprintf("CRun %d %d %s %s []", j.Mode, n, Clist(seqItems), Clist(concItems))
+		env.Add(term, desc, bucket, nontriv)
+		if diff != "" {
+			env.Add(term, fmt.Sprintf("job=%d OBSERVED completion order=%s; results differ from the sequential baseline: %s", i, strings.Join(order, ""), diff), bucket+" differs", true)
+			failures = append(failures, fmt.Sprintf("job=%d %s", i, clip(diff, 1500)))
+		}
+	}
+	for k := range env.Samples {
+		env.Samples[k] = clip(env.Samples[k], 700)
+	}
+	if len(failures) > 12 {
+		failures = failures[:12]
+	}
+	env.Extra["failing_jobs"] = failures
+	env.Extra["jobs_with_interleaved_completion_order"] = interleaved
+	env.Extra["setup_js_fnv"] = fmt.Sprintf("%x", func() uint64 { h := fnv.New64a(); h.Write([]byte(setupJS)); return h.Sum64() }())
+	env.Extra["abnormal_children"] = races
+	env.Extra["setup_js"] = "harness/cmd/c20_race/main.go: const setupJS (every runtime or template starts from it); yield() is a Go function calling runtime.Gosched"
+	if os.Getenv("C20_DUMP") != "" { // debugging aid: the raw observations
+		var all []*JobResult
+		for _, o := range obs {
+			all = append(all, o.res)
+		}
+		bs, _ := json.Marshal(all)
+		_ = os.WriteFile(filepath.Join(env.Out, "dump.json"), bs, 0o644)
+	} else {
+		_ = os.Remove(jobsFile)
+	}
+	env.Finish()
 }
